@@ -143,9 +143,9 @@ def parse_chain(prog, fv, e, side, flip=False, out=None, problems=None):
             a, b = strip(args[0]), strip(args[1])
             if a[0] == "agg" and a[1] == "tuple" and b[0] == "agg" and b[1] == "tuple" and len(a[3]) == len(b[3]):
                 for x, y in zip(a[3], b[3]):
-                    out.append((strip(x), strip(y), flip, fv, side, name))
+                    out.append((strip(x), strip(y), flip, fv, side, e[4] + " " + e[5]))
             else:
-                out.append((a, b, flip, fv, side, name))
+                out.append((a, b, flip, fv, side, e[4] + " " + e[5]))
             return out, problems
     problems.append("unrecognised comparator shape: " + show(e0, 120))
     return out, problems
